@@ -390,6 +390,10 @@ func (e *Enc) enterBlock(b *ssa.BasicBlock) {
 	name := e.fresh(fmt.Sprintf("at_b%d", b.Index), sBool)
 	e.at[b] = name
 	if b.Index == 0 {
+		if e.inlined {
+			e.assert(eq(name, e.inlineGuard))
+			return
+		}
 		e.assert(name)
 		return
 	}
